@@ -1153,7 +1153,7 @@ def padleft_fn(
             )
         cnt = 0
     else:
-        cnt = int(cntstr)
+        cnt = min(int(cntstr), 500)  # MediaWiki pads to at most 500 characters
     if cnt - len(v) > len(pad) and len(pad) > 0:
         pad = pad * ((cnt - len(v)) // len(pad) + 1)
     if len(v) < cnt:
@@ -1178,7 +1178,7 @@ def padright_fn(
                 sortid="parserfns/940",
             )
     else:
-        cnt = int(cntstr)
+        cnt = min(int(cntstr), 500)  # MediaWiki pads to at most 500 characters
     if cnt - len(v) > len(pad) and len(pad) > 0:
         pad = pad * ((cnt - len(v)) // len(pad) + 1)
     if len(v) < cnt:
@@ -1473,7 +1473,7 @@ def pad_fn(
         )
         cnt = 0
     else:
-        cnt = int(cntstr)
+        cnt = min(int(cntstr), 500)  # MediaWiki pads to at most 500 characters
     if cnt - len(v) > len(pad):
         pad = pad * ((cnt - len(v)) // len(pad) + 1)
     if len(v) < cnt:
